@@ -28,6 +28,8 @@ func runC01(c *Ctx) {
 	c01Decoder(c, "C01.decode-table", c.fn("C01.decode-table", ws, "ReadHeader"), false)
 	c01Decoder(c, "C01.decode-table", c.method("C01.decode-table", wsutil, "Reader", "readHeader"), true)
 	c01Frames(c)
+	// the streaming decoder reads straight from the source it is given
+	helperNextReaderRules(c, "C01")
 }
 
 func lengthForm(l fold.Int) int { // 0: 7 bit, 1: 16 bit, 2: 64 bit, -1: straddles
